@@ -11,7 +11,7 @@ ID = 'C02'
 PROPS_FILE = 'theories/Props/C02.v'
 PROPS_MODULE = 'Props.C02'
 COQ_TARGETS = ['theories/Extract/ExtractSyntax.vo']
-REQUIRED_THEOREMS = ['C02_roundtrip_simple_partial', 'C02_simple_is_wellformed', 'C02_layout_independent_simple_partial', 'C02_roundtrip_statement_refuted_by_D7', 'C02_roundtrip_multiline_partial', 'C02_multiline_is_wellformed', 'C02_layout_independent_multiline_partial', 'C02_simple_in_multiline', 'C02_roundtrip_select_partial', 'C02_select_is_wellformed', 'C02_layout_independent_select_partial', 'C02_select_depth_monotone', 'C02_roundtrip_wellformed_partial', 'C02_layout_independent_wellformed_partial', 'C02_roundtrip_nested_partial', 'C02_nested_is_wellformed', 'C02_wellformed_in_nested', 'C02_D7_parse', 'C02_wellformed_refuted_exactly', 'C02_D7_excluded', 'C02_rendered_source_is_utf8', 'C02_parse_all_layouts_partial', 'C02_rendered_is_layout']
+REQUIRED_THEOREMS = ['C02_roundtrip_simple_partial', 'C02_simple_is_wellformed', 'C02_layout_independent_simple_partial', 'C02_roundtrip_statement_refuted_by_D7', 'C02_roundtrip_multiline_partial', 'C02_multiline_is_wellformed', 'C02_layout_independent_multiline_partial', 'C02_simple_in_multiline', 'C02_roundtrip_select_partial', 'C02_select_is_wellformed', 'C02_layout_independent_select_partial', 'C02_select_depth_monotone', 'C02_roundtrip_wellformed_partial', 'C02_layout_independent_wellformed_partial', 'C02_roundtrip_nested_partial', 'C02_nested_is_wellformed', 'C02_wellformed_in_nested', 'C02_D7_parse', 'C02_wellformed_refuted_exactly', 'C02_D7_excluded', 'C02_rendered_source_is_utf8', 'C02_parse_all_layouts_partial', 'C02_rendered_is_layout', 'C02_nested_depth_monotone', 'C02_select_in_nested', 'C02_errorfree_source_tree_wellformed_partial', 'C02_relayout_errorfree_source_partial']
 MODEL = 'syn'
 HARNESS_BINS = ['syn_run']
 ANCHORS = ['fluent-syntax/src/parser/core.rs', 'fluent-syntax/src/parser/pattern.rs', 'fluent-syntax/src/parser/expression.rs',
@@ -138,6 +138,14 @@ def gen_pattern(rng, depth, multiline=None):
         els = [[b't', b'x']]
     if els[0][0] == b't' and (els[0][1][:1] in (b' ', b'\n')):
         els[0][1] = b'x' + els[0][1].lstrip(b' \n')
+    # sometimes the FIRST line of a multi-line value is indented deeper than a later line (fixture multiline_values key10
+    # "  two\nzero\n    four"): a tree of the grammar that only the block form can express; the model's wf flag filters the rest
+    if nlines > 1 and rng.random() < 0.15:
+        k = rng.randint(1, 4)
+        if els[0][0] == b't':
+            els[0][1] = b' ' * k + els[0][1]
+        else:
+            els.insert(0, [b't', b' ' * k])
     return [b'pat'] + els
 
 
@@ -240,7 +248,7 @@ def render_all(trees, rng, per_tree):
     return cases, notwf
 
 
-BLANK_LINE_SPACES = False   # switched on together with the repair of D33
+BLANK_LINE_SPACES = True
 
 
 def blank_line_variants(rng, cases, n):
@@ -498,7 +506,9 @@ PARTIAL = ('the round trip parse (render cs t) = t is PROVED for ALL well-formed
            'comment with one line fewer); comments ending in empty or whitespace-only lines anywhere else are covered. The unrestricted statement '
            'is refuted on the current tree by D7: C02_wellformed_refuted_exactly shows the round trip FAILS for every well-formed tree whose last entry '
            'is a comment of >= 2 lines with an empty last line (C02_D7_parse gives the tree the parser returns instead); the one-line case is '
-           'C02_roundtrip_statement_refuted_by_D7. C02_rendered_source_is_utf8: every rendered source is valid UTF-8, so C01 applies to it. Adequacy of Render.v w.r.t. the Fluent EBNF is trusted.')
+           'C02_roundtrip_statement_refuted_by_D7. C02_rendered_source_is_utf8: every rendered source is valid UTF-8, so C01 applies to it. Conversely (C02_errorfree_source_tree_wellformed_partial, '
+           'C02_relayout_errorfree_source_partial): the tree of EVERY error-free CR-free UTF-8 source (no zero-line comment) is a tree of the grammar, and '
+           're-rendering it under any layout parses back to the same tree — layout independence for all such sources, not only rendered ones. Adequacy of Render.v w.r.t. the Fluent EBNF is trusted.')
 
 MANIFEST = {
     'text': 'The Fluent grammar is formalised as a printer with layout choices (Render.v: render, wf_resource); the property is the '
